@@ -1557,8 +1557,10 @@ class Rewriter(ast.NodeTransformer):
 
     def visit_Call(self, node):
         self.generic_visit(node)
-        if any(isinstance(a, ast.Starred) for a in node.args) and False:
-            return node
+        for kw in node.keywords:
+            if kw.arg is None:      # **mapping: keys must be real str -> concretise symbolic keys by forking
+                kw.value = ast.copy_location(
+                    ast.Call(func=self._rt('kwkeys'), args=[kw.value], keywords=[]), kw.value)
         if isinstance(node.func, ast.Attribute) and isinstance(node.func.ctx, ast.Load):
             if isinstance(node.func.value, ast.Name) and node.func.value.id == '__rt__':
                 return node
@@ -1641,6 +1643,20 @@ def _fstr_safe(*parts):
         return "<symbolic message>"
 
 
+def concretize_str(x):
+    """real str for a (possibly symbolic) string; symbolic characters are concretised by forking"""
+    if isinstance(x, str):
+        return x
+    return ''.join(i if isinstance(i, str) else chr(ENG.concretize_int(i)) for i in SymStr.lift(x)._chs)
+
+
+def _kwkeys(d):
+    if not any(is_sym(k) for k in d):
+        return d
+    return {concretize_str(k): v for k, v in d.items()}
+
+
+RT.kwkeys = staticmethod(_kwkeys)
 RT_fstr_impl = RT.fstr
 RT.chain_and = staticmethod(_chain_and)
 RT.augassign = staticmethod(_augassign)
